@@ -1,0 +1,178 @@
+//go:build verif
+
+package badger
+
+// Verification hooks for the "log" area (header / valuePointer codecs, log records,
+// safeRead.Entry, logFile.iterate). Thin wrappers that only call production code.
+
+import (
+	"bufio"
+	"bytes"
+	"io"
+	"strings"
+
+	"github.com/dgraph-io/badger/v4/pb"
+	"github.com/dgraph-io/ristretto/v2/z"
+)
+
+// VerifHeader mirrors the unexported header struct.
+type VerifHeader struct {
+	Klen      uint32
+	Vlen      uint32
+	ExpiresAt uint64
+	Meta      byte
+	UserMeta  byte
+}
+
+func (v VerifHeader) h() header {
+	return header{klen: v.Klen, vlen: v.Vlen, expiresAt: v.ExpiresAt, meta: v.Meta, userMeta: v.UserMeta}
+}
+
+func verifHeaderOf(h header) VerifHeader {
+	return VerifHeader{Klen: h.klen, Vlen: h.vlen, ExpiresAt: h.expiresAt, Meta: h.meta, UserMeta: h.userMeta}
+}
+
+// VerifHeaderEncode calls header.Encode on a maxHeaderSize buffer and returns out[:n].
+func VerifHeaderEncode(v VerifHeader) []byte {
+	var out [maxHeaderSize]byte
+	n := v.h().Encode(out[:])
+	return append([]byte{}, out[:n]...)
+}
+
+// VerifHeaderDecode calls header.Decode(buf).
+func VerifHeaderDecode(buf []byte) (VerifHeader, int) {
+	var h header
+	n := h.Decode(buf)
+	return verifHeaderOf(h), n
+}
+
+// verifReader builds the reader stack used by logFile.iterate: bufio over the mmap reader.
+func verifReader(data []byte, offset int) io.Reader {
+	mf := &z.MmapFile{Data: data}
+	return bufio.NewReader(mf.NewReader(offset))
+}
+
+// VerifHeaderDecodeFrom calls header.DecodeFrom on a hashReader over data.
+func VerifHeaderDecodeFrom(data []byte) (VerifHeader, int, error) {
+	var h header
+	n, err := h.DecodeFrom(newHashReader(verifReader(data, 0)))
+	return verifHeaderOf(h), n, err
+}
+
+// VerifVptrEncode calls valuePointer.Encode.
+func VerifVptrEncode(fid, length, offset uint32) []byte {
+	return valuePointer{Fid: fid, Len: length, Offset: offset}.Encode()
+}
+
+// VerifVptrDecode calls valuePointer.Decode.
+func VerifVptrDecode(b []byte) (fid, length, offset uint32) {
+	var p valuePointer
+	p.Decode(b)
+	return p.Fid, p.Len, p.Offset
+}
+
+// VerifLogErrName maps the errors of the log readers to the line-protocol enum.
+func VerifLogErrName(err error) string {
+	switch {
+	case err == nil:
+		return "ok"
+	case err == io.EOF:
+		return "eof"
+	case err == io.ErrUnexpectedEOF:
+		return "unexpected-eof"
+	case err == errTruncate:
+		return "truncate"
+	case strings.Contains(err.Error(), "overflows a 64-bit integer"):
+		return "overflow"
+	}
+	return "error:" + err.Error()
+}
+
+// VerifLogEntry is the stored part of an Entry plus what iterate/safeRead report.
+type VerifLogEntry struct {
+	Key, Value []byte
+	ExpiresAt  uint64
+	Meta       byte
+	UserMeta   byte
+	Offset     uint32
+	Hlen       int
+	// value pointer handed to the iterate callback
+	VpFid, VpLen, VpOffset uint32
+}
+
+func verifEntryOf(e *Entry) VerifLogEntry {
+	return VerifLogEntry{
+		Key:       append([]byte{}, e.Key...),
+		Value:     append([]byte{}, e.Value...),
+		ExpiresAt: e.ExpiresAt, Meta: e.meta, UserMeta: e.UserMeta, Offset: e.offset, Hlen: e.hlen,
+	}
+}
+
+// VerifLogFile builds an in-memory logFile (no fd) over data. aesKey == nil: unencrypted.
+func verifLogFile(fid uint32, data []byte, aesKey, baseIV []byte) *logFile {
+	lf := &logFile{MmapFile: &z.MmapFile{Data: data}, fid: fid, path: "verif.vlog", baseIV: baseIV}
+	if aesKey != nil {
+		lf.dataKey = &pb.DataKey{KeyId: 1, Data: aesKey}
+	}
+	lf.size.Store(uint32(len(data)))
+	return lf
+}
+
+// VerifGenerateIV calls logFile.generateIV.
+func VerifGenerateIV(baseIV []byte, offset uint32) []byte {
+	return verifLogFile(0, nil, nil, baseIV).generateIV(offset)
+}
+
+// VerifEncodeEntry calls logFile.encodeEntry; returns the bytes appended and the returned length.
+func VerifEncodeEntry(aesKey, baseIV []byte, offset uint32, in VerifLogEntry) ([]byte, int, error) {
+	lf := verifLogFile(0, nil, aesKey, baseIV)
+	var buf bytes.Buffer
+	e := &Entry{Key: in.Key, Value: in.Value, ExpiresAt: in.ExpiresAt, meta: in.Meta, UserMeta: in.UserMeta}
+	n, err := lf.encodeEntry(&buf, e, offset)
+	return append([]byte{}, buf.Bytes()...), n, err
+}
+
+// VerifDecodeEntry calls logFile.decodeEntry(buf, offset).
+func VerifDecodeEntry(aesKey, baseIV []byte, offset uint32, buf []byte) (VerifLogEntry, error) {
+	lf := verifLogFile(0, nil, aesKey, baseIV)
+	e, err := lf.decodeEntry(buf, offset)
+	if err != nil {
+		return VerifLogEntry{}, err
+	}
+	return verifEntryOf(e), nil
+}
+
+// VerifSafeRead calls safeRead.Entry on a reader positioned at the start of data (the record is
+// taken to live at file offset recordOffset, which only matters for the IV).
+func VerifSafeRead(aesKey, baseIV []byte, recordOffset uint32, data []byte) (VerifLogEntry, error) {
+	lf := verifLogFile(0, data, aesKey, baseIV)
+	r := &safeRead{k: make([]byte, 10), v: make([]byte, 10), recordOffset: recordOffset, lf: lf}
+	e, err := r.Entry(verifReader(data, 0))
+	if err != nil {
+		return VerifLogEntry{}, err
+	}
+	return verifEntryOf(e), nil
+}
+
+// VerifIterate calls logFile.iterate(true, 0, fn) over a file image (20-byte header included) and
+// returns the callback invocations, the returned end offset and error.
+func VerifIterate(fid uint32, file []byte, aesKey, baseIV []byte) ([]VerifLogEntry, uint32, error) {
+	lf := verifLogFile(fid, file, aesKey, baseIV)
+	var out []VerifLogEntry
+	end, err := lf.iterate(true, 0, func(e Entry, vp valuePointer) error {
+		v := verifEntryOf(&e)
+		v.VpFid, v.VpLen, v.VpOffset = vp.Fid, vp.Len, vp.Offset
+		out = append(out, v)
+		return nil
+	})
+	return out, end, err
+}
+
+// VerifVlogHeaderSize is vlogHeaderSize.
+const VerifVlogHeaderSize = vlogHeaderSize
+
+// VerifBitTxn / VerifBitFinTxn are the transaction meta bits.
+const (
+	VerifBitTxn    = bitTxn
+	VerifBitFinTxn = bitFinTxn
+)
